@@ -26,7 +26,8 @@ type c10Case struct {
 	PatchForm string   `json:"patch_form"` // absent | unnamed | named | meta | dot | blank
 	FileForms []string `json:"file_forms"` // forms under which the file imports c10Path, in order: unnamed | nm | other | dot | blank | mv
 	Layout    string   `json:"layout"`
-	Pkg       string   `json:"pkg"`       // absent | same | different
+	Pkg       string   `json:"pkg"`       // absent | same | different | near-misses, see c10PkgNames
+	Body      string   `json:"body,omitempty"` // "" expr->expr | expr-to-stmts | stmts | decl
 	LineKind  string   `json:"line_kind"` // context | minus
 	Second    string   `json:"second"`    // none | satisfied | unsatisfied | wrongform
 	// Extra unrelated imports (random part).
@@ -51,6 +52,42 @@ func c10ImportLine(form, path string) string {
 	return ""
 }
 
+// c10PkgNames gives, per package-clause case, the name in the patch's guard
+// ("" = no package clause), the name in the file, and whether the guard holds
+// ("the change applies only to files of that package": the names are equal;
+// a package foo_test, a longer or shorter name or another spelling is another
+// package).
+func c10PkgNames(pkg string) (guard, file string, holds bool) {
+	switch pkg {
+	case "same":
+		return "foo", "foo", true
+	case "different":
+		return "notfoo", "foo", false
+	case "file-test":
+		return "foo", "foo_test", false
+	case "guard-test":
+		return "foo_test", "foo", false
+	case "both-test":
+		return "foo_test", "foo_test", true
+	case "guard-prefix":
+		return "fo", "foo", false
+	case "guard-longer":
+		return "foox", "foo", false
+	case "case":
+		return "Foo", "foo", false
+	}
+	return "", "foo", true
+}
+
+// c10Bodies: the code part of the change; every variant rewrites code that
+// occurs in func use() and leaves "tgq(1)" behind.
+var c10BodyText = map[string]string{
+	"":              "\n-tgt(1)\n+tgq(1)\n",
+	"expr-to-stmts": "\n-tgt(1)\n+tgq(1)\n+tgq(3)\n",
+	"stmts":         "\n-tgt(1)\n-tgt(2)\n+tgq(1)\n",
+	"decl":          "\n-func use() {\n-\ttgt(1)\n-\ttgt(2)\n-}\n+func use() {\n+\ttgq(1)\n+}\n",
+}
+
 // c10Build renders the patch and the file.
 func c10Build(cs *c10Case) (patch, file string) {
 	var p strings.Builder
@@ -63,11 +100,9 @@ func c10Build(cs *c10Case) (patch, file string) {
 	if cs.LineKind == "minus" {
 		pfx = "-"
 	}
-	switch cs.Pkg {
-	case "same":
-		p.WriteString(pfx + "package foo\n\n")
-	case "different":
-		p.WriteString(pfx + "package notfoo\n\n")
+	guardPkg, filePkg, _ := c10PkgNames(cs.Pkg)
+	if guardPkg != "" {
+		p.WriteString(pfx + "package " + guardPkg + "\n\n")
 	}
 	switch cs.PatchForm {
 	case "unnamed":
@@ -85,9 +120,7 @@ func c10Build(cs *c10Case) (patch, file string) {
 	case "satisfied", "unsatisfied", "wrongform":
 		p.WriteString(pfx + fmt.Sprintf("import %q\n", c10Path2))
 	}
-	if cs.Pkg == "minus-rename" {
-	}
-	p.WriteString("\n-tgt(1)\n+tgq(1)\n")
+	p.WriteString(c10BodyText[cs.Body])
 
 	// file
 	var specs []string
@@ -103,7 +136,7 @@ func c10Build(cs *c10Case) (patch, file string) {
 	unrelatedBefore := []string{`"fmt"`, fmt.Sprintf("%q", c10Path+"2"), `str "strings"`}
 	unrelatedAfter := []string{fmt.Sprintf("%q", "x/"+c10Path), `_ "embed"`, fmt.Sprintf("pp %q", "example.com/guarded")}
 	var f strings.Builder
-	f.WriteString("// A file.\npackage foo\n\n")
+	f.WriteString("// A file.\npackage " + filePkg + "\n\n")
 	writeGroup := func(sp []string) {
 		if len(sp) == 0 {
 			return
@@ -161,8 +194,7 @@ func c10Build(cs *c10Case) (patch, file string) {
 // metavariable matches any name or none"; the package must be the file's;
 // every guard must hold.
 func c10Expect(cs *c10Case) bool {
-	switch cs.Pkg {
-	case "different":
+	if _, _, holds := c10PkgNames(cs.Pkg); !holds {
 		return false
 	}
 	has := func(form string) bool {
@@ -216,7 +248,7 @@ func evalC10(cs *c10Case) (sig, msg string, applies bool) {
 		return "apply-error", fmt.Sprintf("Apply fails: %s\npatch:\n%s\nfile:\n%s", r.ApplyErr, patch, file), want
 	}
 	got := bytes.Contains(r.Out, []byte("tgq(1)"))
-	desc := fmt.Sprintf("patch form %s (%s line), file imports the path as %v, layout %s, package clause %s, second guard %s", cs.PatchForm, cs.LineKind, cs.FileForms, cs.Layout, cs.Pkg, cs.Second)
+	desc := fmt.Sprintf("patch form %s (%s line), file imports the path as %v, layout %s, package clause %s, second guard %s, body %q", cs.PatchForm, cs.LineKind, cs.FileForms, cs.Layout, cs.Pkg, cs.Second, cs.Body)
 	switch {
 	case want && !got:
 		multi := ""
@@ -242,7 +274,8 @@ var (
 		{"unnamed", "nm"}, {"nm", "unnamed"}, {"nm", "other"}, {"other", "nm"}, {"blank", "unnamed"}, {"unnamed", "blank"}, {"dot", "nm"}, {"other", "dot"},
 	}
 	c10Layouts = []string{"singles", "group", "group-among", "two-blocks", "singles-among", "after-unrelated-group", "first-then-group", "reversed-group"}
-	c10Pkgs    = []string{"absent", "same", "different"}
+	c10Pkgs    = []string{"absent", "same", "different", "file-test", "guard-test", "both-test", "guard-prefix", "guard-longer", "case"}
+	c10Bodies  = []string{"", "expr-to-stmts", "stmts", "decl"}
 	c10Kinds   = []string{"context", "minus"}
 	c10Seconds = []string{"none", "satisfied", "unsatisfied", "wrongform"}
 )
@@ -253,7 +286,7 @@ func c10Record(cs *c10Case, applies bool) {
 	if applies {
 		cl = "expect:applies"
 	}
-	c.Case(evid.Hash(fmt.Sprint(*cs)), true, cl, "patch-form:"+cs.PatchForm, "layout:"+cs.Layout, "pkg:"+cs.Pkg, "second:"+cs.Second, fmt.Sprintf("file-specs:%d", len(cs.FileForms)))
+	c.Case(evid.Hash(fmt.Sprint(*cs)), true, cl, "patch-form:"+cs.PatchForm, "layout:"+cs.Layout, "pkg:"+cs.Pkg, "body:"+cs.Body, "second:"+cs.Second, fmt.Sprintf("file-specs:%d", len(cs.FileForms)))
 	if c.WantSample() {
 		p, f := c10Build(cs)
 		c.Sample(map[string]any{"case": cs, "patch": p, "file": f, "expected_applies": applies})
@@ -263,26 +296,31 @@ func c10Record(cs *c10Case, applies bool) {
 func TestC10(t *testing.T) {
 	k, n := shard()
 	idx := 0
-	for _, pf := range c10PatchForms {
-		for _, fs := range c10FileSets {
-			for _, lo := range c10Layouts {
-				for _, pk := range c10Pkgs {
-					for _, lk := range c10Kinds {
-						for _, sd := range c10Seconds {
-							idx++
-							if idx%n != k {
-								continue
-							}
-							if pf == "absent" && pk == "absent" && sd == "none" {
-								continue // no guard at all
-							}
-							cs := &c10Case{PatchForm: pf, FileForms: fs, Layout: lo, Pkg: pk, LineKind: lk, Second: sd}
-							sig, msg, applies := evalC10(cs)
-							c10Record(cs, applies)
-							if sig != "" {
-								violate(softFataler{t}, "C10", sig, msg, cs)
-								if t.Failed() {
-									return
+	for _, body := range c10Bodies {
+		for _, pf := range c10PatchForms {
+			for _, fs := range c10FileSets {
+				for _, lo := range c10Layouts {
+					for _, pk := range c10Pkgs {
+						for _, lk := range c10Kinds {
+							for _, sd := range c10Seconds {
+								if body != "" && (lo != "group" && lo != "singles-among" || sd != "none" && sd != "unsatisfied") {
+									continue // the other body shapes are crossed with two layouts and two second guards only
+								}
+								idx++
+								if idx%n != k {
+									continue
+								}
+								if pf == "absent" && pk == "absent" && sd == "none" {
+									continue // no guard at all
+								}
+								cs := &c10Case{PatchForm: pf, FileForms: fs, Layout: lo, Pkg: pk, LineKind: lk, Second: sd, Body: body}
+								sig, msg, applies := evalC10(cs)
+								c10Record(cs, applies)
+								if sig != "" {
+									violate(softFataler{t}, "C10", sig, msg, cs)
+									if t.Failed() {
+										return
+									}
 								}
 							}
 						}
@@ -303,6 +341,7 @@ func TestC10(t *testing.T) {
 			Pkg:       rapid.SampledFrom(c10Pkgs).Draw(rt, "pk"),
 			LineKind:  rapid.SampledFrom(c10Kinds).Draw(rt, "lk"),
 			Second:    rapid.SampledFrom(c10Seconds).Draw(rt, "sd"),
+			Body:      rapid.SampledFrom(c10Bodies).Draw(rt, "body"),
 		}
 		nExtra := rapid.IntRange(0, 5).Draw(rt, "nExtra")
 		for i := 0; i < nExtra; i++ {
